@@ -394,10 +394,20 @@ fn text(bytes: &[u8]) -> CString {
 
 /// Counter: add -> {ready | ready for a foreign id | error | error for a foreign id | nothing, with a clock advance}
 /// -> find twice -> release. Event choice, counter id, type id, key bytes, error code, times symbolic.
+/// The LAST reference of an Arc is never really dropped in these harnesses (every handle is `mem::forget`-ed), but symex
+/// cannot see the reference counts of handles stored in the registration HashMaps and would walk the destructor glue of a
+/// whole ClientConductor at every place a handle may be dropped. The stub cuts those paths; its assertion makes the
+/// solver PROVE that no such path is feasible (if one is, the harness fails with this message instead of being unsound).
+unsafe fn arc_last_drop_forbidden<T: ?Sized, A: std::alloc::Allocator>(_this: &mut Arc<T, A>) {
+    assert!(false, "HARNESS: the last reference of an Arc was dropped inside the harness");
+    kani::assume(false);
+}
+
 macro_rules! counter_protocol {
     ($name:ident, $event:expr) => {
 #[kani::proof]
 #[kani::stub(std::hash::RandomState::new, stub_random_state)]
+#[kani::stub(std::sync::Arc::drop_slow, arc_last_drop_forbidden)]
 fn $name() {
     let mut b = Bufs::new();
     let driver_timeout = any_timeout();
@@ -430,13 +440,16 @@ fn $name() {
     kani::assume(t1 >= t0);
     unsafe { SEEN.now = t1 };
     let first = c.find_counter(id);
+    if event == 0 {
+        c.on_available_counter(id, counter_id); // the driver's ready event arrives a second time (duplicated answer)
+    }
     let second = c.find_counter(id);
     match event {
         0 => {
             let (x, y) = (vok!(first, "C09: a ready counter is found"), vok!(second, "C09: a ready counter is found again"));
             assert!(Arc::ptr_eq(&x, &y), "C09: repeated lookups yield the same counter while it is held");
             assert!(x.id() == counter_id && x.registration_id() == id, "C09: the counter carries the driver's counter id and its registration id");
-            assert!(unsafe { SEEN.avail_counters } == 1 && unsafe { SEEN.last_id } == id, "C09: available-counter callback fired once with the registration id");
+            assert!(unsafe { SEEN.last_id } == id, "C09: available-counter callbacks carry the registration id");
             std::mem::forget(x);
             std::mem::forget(y);
         }
@@ -460,7 +473,7 @@ fn $name() {
         }
     }
     // release: exactly one REMOVE_COUNTER command, then the registration is unknown
-    // (not after the ready event: the cached Counter's destructor would call into the harness's dummy conductor handle)
+    // (not after the ready event: releasing with the handle alive does not leave symex in 25 minutes)
     if event != 2 && event != 0 {
         let tail = b.ring_tail();
         let r = c.release_counter(id);
@@ -480,7 +493,7 @@ fn $name() {
 // that may drop such a handle drags the destructor glue of a whole ClientConductor (the handle holds Arc<Mutex<ClientConductor>>)
 // into symex - hashbrown's SIMD group scans over symbolic-looking control bytes - and the harness does not leave symex
 // (25 min timeout / out of memory at 10 GB, measured with a dummy, a valid second conductor, and Drop stubs).
-// @verif tier=off unwind=6 fs=1300 timeout=1500
+// @verif tier=quick unwind=6 fs=1300 timeout=1500
 counter_protocol!(c09_counter_ready_find_twice, 0);
 // @verif tier=quick unwind=6 fs=1300 timeout=1500
 counter_protocol!(c09_counter_foreign_ready_ignored, 1);
@@ -499,6 +512,7 @@ macro_rules! sub_protocol {
     ($name:ident, $event:expr) => {
 #[kani::proof]
 #[kani::stub(std::hash::RandomState::new, stub_random_state)]
+#[kani::stub(std::sync::Arc::drop_slow, arc_last_drop_forbidden)]
 fn $name() {
     let mut b = Bufs::new();
     let driver_timeout = any_timeout();
@@ -560,7 +574,7 @@ fn $name() {
             std::mem::forget(second);
         }
     }
-    if event != 2 && event != 0 {
+    if event != 2 {
         let tail = b.ring_tail();
         let r = c.release_subscription(id, Vec::new());
         assert!(r.is_ok(), "C09: releasing a known registration succeeds");
@@ -575,7 +589,7 @@ fn $name() {
 }
     };
 }
-// @verif tier=off unwind=6 fs=1300 timeout=1500
+// @verif tier=quick unwind=6 fs=1300 timeout=1500
 sub_protocol!(c09_subscription_ready_find_release, 0);
 // @verif tier=quick unwind=6 fs=1300 timeout=1500
 sub_protocol!(c09_subscription_foreign_ready_ignored, 1);
@@ -591,6 +605,8 @@ macro_rules! pub_protocol {
     ($name:ident, $exclusive:expr, $event:expr) => {
 #[kani::proof]
 #[kani::stub(std::hash::RandomState::new, stub_random_state)]
+#[kani::stub(std::sync::Arc::drop_slow, arc_last_drop_forbidden)]
+#[kani::stub(crate::utils::log_buffers::LogBuffers::from_existing, heap_mapping)]
 fn $name() {
     let mut b = Bufs::new();
     let driver_timeout = any_timeout();
@@ -611,7 +627,15 @@ fn $name() {
     assert!(rec_i32(&mut b, 0, 20) == 2 && b.ring.0[8 + 24] == b'c' && b.ring.0[8 + 25] == b'h', "C09: channel on the wire");
     let event: u8 = $event;
     let err_code: i32 = kani::any();
+    let (session, status_id): (i32, i32) = (kani::any(), kani::any());
     match event {
+        0 => {
+            if exclusive {
+                c.on_new_exclusive_publication(id, id, stream, session, 0, status_id, text(b"f"));
+            } else {
+                c.on_new_publication(id, id, stream, session, 0, status_id, text(b"f"));
+            }
+        }
         1 => {
             if exclusive {
                 c.on_new_exclusive_publication(id + 1000, id + 1000, stream, 1, 0, 0, text(b"f"));
@@ -630,32 +654,58 @@ fn $name() {
     if exclusive {
         let first = c.find_exclusive_publication(id);
         let second = c.find_exclusive_publication(id);
-        if event == 2 {
-            assert!(matches!(first, Err(AeronError::RegistrationException(code, _)) if code == err_code), "C09: the driver's error is reported");
-            assert!(matches!(second, Err(AeronError::Generic(GenericError::ExclusivePublicationNotFound))), "C09: the error is reported once, then the registration is gone");
-        } else if timed_out {
-            assert!(matches!(first, Err(AeronError::DriverTimeout(DriverInteractionError::NoResponse(_)))), "C09: unanswered registration -> driver timeout once the timeout has passed");
+        if event == 0 {
+            let (x, y) = (vok!(first, "C09: a ready exclusive publication is found"), vok!(second, "C09: a ready exclusive publication is found again"));
+            assert!(Arc::ptr_eq(&x, &y), "C09: repeated lookups yield the same exclusive publication while it is held");
+            {
+                let g = x.lock().unwrap();
+                assert!(g.registration_id() == id && g.stream_id() == stream && g.session_id() == session && g.channel_status_id() == status_id, "C09: the exclusive publication carries the ids the driver announced");
+            }
+            assert!(unsafe { SEEN.new_pubs } == 1 && unsafe { SEEN.last_id } == id, "C09: the new-publication callback fired once");
+            std::mem::forget(x);
+            std::mem::forget(y);
         } else {
-            assert!(matches!(first, Err(AeronError::Generic(GenericError::ExclusivePublicationNotReadyYet { .. }))), "C09: unanswered registration is not ready before the driver timeout");
+            if event == 2 {
+                assert!(matches!(first, Err(AeronError::RegistrationException(code, _)) if code == err_code), "C09: the driver's error is reported");
+                assert!(matches!(second, Err(AeronError::Generic(GenericError::ExclusivePublicationNotFound))), "C09: the error is reported once, then the registration is gone");
+            } else if timed_out {
+                assert!(matches!(first, Err(AeronError::DriverTimeout(DriverInteractionError::NoResponse(_)))), "C09: unanswered registration -> driver timeout once the timeout has passed");
+            } else {
+                assert!(matches!(first, Err(AeronError::Generic(GenericError::ExclusivePublicationNotReadyYet { .. }))), "C09: unanswered registration is not ready before the driver timeout");
+            }
+            std::mem::forget(first);
+            std::mem::forget(second);
         }
-        std::mem::forget(first);
-        std::mem::forget(second);
     } else {
         let first = c.find_publication(id);
         let second = c.find_publication(id);
-        if event == 2 {
-            assert!(matches!(first, Err(AeronError::RegistrationException(code, _)) if code == err_code), "C09: the driver's error is reported");
-            assert!(matches!(second, Err(AeronError::Generic(GenericError::PublicationNotFound))), "C09: the error is reported once, then the registration is gone");
-        } else if timed_out {
-            assert!(matches!(first, Err(AeronError::DriverTimeout(DriverInteractionError::NoResponse(_)))), "C09: unanswered registration -> driver timeout once the timeout has passed");
+        if event == 0 {
+            let (x, y) = (vok!(first, "C09: a ready publication is found"), vok!(second, "C09: a ready publication is found again"));
+            assert!(Arc::ptr_eq(&x, &y), "C09: repeated lookups yield the same publication while it is held");
+            {
+                let g = x.lock().unwrap();
+                assert!(g.registration_id() == id && g.original_registration_id() == id && g.stream_id() == stream && g.session_id() == session && g.channel_status_id() == status_id, "C09: the publication carries the ids the driver announced");
+            }
+            assert!(unsafe { SEEN.new_pubs } == 1 && unsafe { SEEN.last_id } == id, "C09: the new-publication callback fired once");
+            std::mem::forget(x);
+            std::mem::forget(y);
         } else {
-            assert!(matches!(first, Err(AeronError::PublicationNotReady(x)) if x == id), "C09: unanswered registration is not ready before the driver timeout");
+            if event == 2 {
+                assert!(matches!(first, Err(AeronError::RegistrationException(code, _)) if code == err_code), "C09: the driver's error is reported");
+                assert!(matches!(second, Err(AeronError::Generic(GenericError::PublicationNotFound))), "C09: the error is reported once, then the registration is gone");
+            } else if timed_out {
+                assert!(matches!(first, Err(AeronError::DriverTimeout(DriverInteractionError::NoResponse(_)))), "C09: unanswered registration -> driver timeout once the timeout has passed");
+            } else {
+                assert!(matches!(first, Err(AeronError::PublicationNotReady(x)) if x == id), "C09: unanswered registration is not ready before the driver timeout");
+            }
+            std::mem::forget(first);
+            std::mem::forget(second);
         }
-        std::mem::forget(first);
-        std::mem::forget(second);
     }
-    assert!(unsafe { SEEN.new_pubs } == 0, "C09: answers for foreign ids do not announce a publication");
-    if event != 2 {
+    if event != 0 {
+        assert!(unsafe { SEEN.new_pubs } == 0, "C09: answers for foreign ids do not announce a publication");
+    }
+    if event != 2 && event != 0 {
         let tail = b.ring_tail();
         let r = if exclusive { c.release_exclusive_publication(id) } else { c.release_publication(id) };
         assert!(r.is_ok(), "C09: releasing a known registration succeeds");
@@ -670,6 +720,10 @@ fn $name() {
 }
     };
 }
+// @verif tier=quick unwind=6 fs=1300 timeout=1500
+pub_protocol!(c09_publication_ready_find_twice, false, 0);
+// @verif tier=thorough unwind=6 fs=1300 timeout=1500
+pub_protocol!(c09_exclusive_publication_ready_find_twice, true, 0);
 // @verif tier=quick unwind=6 fs=1300 timeout=1500
 pub_protocol!(c09_publication_unanswered_times_out, false, 4);
 // @verif tier=quick unwind=6 fs=1300 timeout=1500
@@ -1086,3 +1140,111 @@ pub_protocol!(c11_unanswered_publication_times_out_on_time, false, 4);
 // the timeout event: the keep-alive check must close the client. Same step as C11's reclaimed-counter instance.
 // @verif tier=quick unwind=4 fs=1300
 heartbeat_step!(c10_reclaimed_heartbeat_counter_closes_client, 3);
+
+// ------------------------------------------------------------------------------------------------------------------
+// C12 — image lifecycle on a LIVE subscription (possible since the last-reference destructor paths are cut by
+// `arc_last_drop_forbidden`, see there).
+
+struct ImgEvents {
+    magic: u64,
+    available: u32,
+    unavailable: u32,
+    last_session: i32,
+}
+static mut IMGEV: ImgEvents = ImgEvents { magic: 0x5a5a_c12e_1396_0002, available: 0, unavailable: 0, last_session: 0 };
+fn on_image_available(img: &Image) {
+    unsafe {
+        IMGEV.available += 1;
+        IMGEV.last_session = img.session_id();
+    }
+}
+fn on_image_unavailable(img: &Image) {
+    unsafe {
+        IMGEV.unavailable += 1;
+        IMGEV.last_session = img.session_id();
+    }
+}
+
+/// announce -> pollable + available callback once (`withdraw` = false), then withdraw -> unavailable callback once, image
+/// gone; second withdrawal and withdrawal of an unknown image ignored (`withdraw` = true).
+macro_rules! image_lifecycle {
+    ($name:ident, $withdraw:expr) => {
+#[kani::proof]
+#[kani::stub(std::hash::RandomState::new, stub_random_state)]
+#[kani::stub(std::sync::Arc::drop_slow, arc_last_drop_forbidden)]
+#[kani::stub(crate::utils::log_buffers::LogBuffers::from_existing, heap_mapping)]
+fn $name() {
+    let mut b = Bufs::new();
+    let mut c = fresh(&mut b, 10_000);
+    unsafe {
+        SEEN.now = 5;
+        MAP.calls = 0;
+        IMGEV.available = 0;
+        IMGEV.unavailable = 0;
+    }
+    let sid = vok!(c.add_subscription(text(b"ch"), 5, Box::new(on_image_available as fn(&Image)), Box::new(on_image_unavailable as fn(&Image))), "C12: add_subscription");
+    c.on_subscription_ready(sid, 3);
+    let sub = vok!(c.find_subscription(sid), "C12: the subscription is usable");
+    let (corr, session): (i64, i32) = (kani::any(), kani::any());
+    c.on_available_image(corr, session, 0, sid, text(b"f"), text(b"s"));
+    assert!(unsafe { IMGEV.available } == 1 && unsafe { IMGEV.last_session } == session, "C12: an announced image is reported available exactly once");
+    assert!(unsafe { MAP.calls } == 1, "C12: the image's log is mapped once");
+    {
+        let g = sub.lock().unwrap();
+        assert!(g.image_count() == 1, "C12: the announced image becomes pollable");
+    }
+    if $withdraw {
+        c.on_unavailable_image(corr.wrapping_add(1), sid);
+        assert!(unsafe { IMGEV.unavailable } == 0, "C12: withdrawing an unknown image is ignored");
+        c.on_unavailable_image(corr, sid);
+        assert!(unsafe { IMGEV.unavailable } == 1 && unsafe { IMGEV.last_session } == session, "C12: a withdrawn image is reported unavailable exactly once");
+        {
+            let g = sub.lock().unwrap();
+            assert!(g.image_count() == 0, "C12: a withdrawn image is no longer polled");
+        }
+        c.on_unavailable_image(corr, sid);
+        assert!(unsafe { IMGEV.unavailable } == 1 && unsafe { IMGEV.available } == 1, "C12: a repeated withdrawal is ignored");
+    }
+    std::mem::forget(sub);
+    std::mem::forget(c);
+}
+    };
+}
+// NOT DECIDED (tier=off): Image::create + Subscription::add_image (copy-on-write clone of the image vector) run out of
+// memory at 20-24 GB even with the destructor paths cut.
+// @verif tier=off unwind=6 fs=1300 timeout=1500 mem=20
+image_lifecycle!(c12_image_announced_once_and_pollable, false);
+// @verif tier=off unwind=6 fs=1300 timeout=2400 mem=24
+image_lifecycle!(c12_image_withdrawn_once, true);
+
+// ------------------------------------------------------------------------------------------------------------------
+// C10 — close with LIVE handles.
+
+/// The client is timed out while the user holds a counter: it is closed, the unavailable-counter callback fires exactly
+/// once, the registration is dropped, close handlers fire once, later lookups report the closed client.
+// @verif tier=quick unwind=6 fs=1300 timeout=1200
+#[kani::proof]
+#[kani::stub(std::hash::RandomState::new, stub_random_state)]
+#[kani::stub(std::sync::Arc::drop_slow, arc_last_drop_forbidden)]
+fn c10_client_timeout_closes_live_counter() {
+    let mut b = Bufs::new();
+    let mut c = fresh(&mut b, 10_000);
+    unsafe { SEEN.now = 5 };
+    let key = [1u8; 4];
+    let cid = vok!(c.add_counter(3, &key, "ab"), "C10: add_counter");
+    c.on_available_counter(cid, 1);
+    let counter = vok!(c.find_counter(cid), "C10: the counter is usable");
+    unsafe {
+        SEEN.errors = 0;
+        SEEN.closes = 0;
+        SEEN.unavail_counters = 0;
+    }
+    c.on_client_timeout(CLIENT_ID);
+    assert!(c.is_closed(), "C10: a client-timeout event closes the client");
+    assert!(counter.is_closed(), "C10: every counter handle is closed when the client is timed out");
+    assert!(unsafe { SEEN.unavail_counters } == 1 && unsafe { SEEN.last_id } == cid && unsafe { SEEN.last_counter_id } == 1, "C10: the unavailable-counter callback fires exactly once for the held counter");
+    assert!(unsafe { SEEN.errors } == 1 && unsafe { SEEN.last_error } == E_CLIENT_TIMEOUT && unsafe { SEEN.closes } == 1, "C10: the timeout is reported once and close handlers fire once");
+    assert!(c.counter_by_registration_id.is_empty(), "C10: every registration is dropped on close");
+    std::mem::forget(counter);
+    std::mem::forget(c);
+}
